@@ -291,6 +291,7 @@ func checkCIndex(c vcase) *vk.Failure {
 			return f
 		}
 		w := len(z) == len(y)
+		infNaN := false // an element pair is the same only part by part (an infinite and a NaN part)
 		if w {
 			for i := range z {
 				a, b := z[i], y[i]
@@ -300,6 +301,9 @@ func checkCIndex(c vcase) *vk.Failure {
 					ok = a == b
 				case "cmplxs.Same":
 					ok = a == b || (cmplx.IsNaN(a) && cmplx.IsNaN(b))
+					if !ok && sameParts(a, b) {
+						ok, infNaN = true, true
+					}
 				case "cmplxs.EqualApprox":
 					ok = cscalar.EqualWithinAbsOrRel(a, b, tol, tol)
 				default:
@@ -313,6 +317,9 @@ func checkCIndex(c vcase) *vk.Failure {
 		}
 		vk.Class(key + "/result=" + map[bool]string{true: "true", false: "false"}[w])
 		if g != w {
+			if w && infNaN {
+				return vk.Failf(key+"/inf-nan-parts", "Same reports false for slices whose elements have the same parts (an element has an infinite and a NaN part): %v vs %v", z, y)
+			}
 			return vk.Failf(key+"/value", "%v: y=%v got %v want %v", c, y, g, w)
 		}
 		if c.Fn == "cmplxs.EqualFunc" && !order {
